@@ -637,6 +637,17 @@ pub fn run_c08(tier: Tier) -> ! {
         cfg.dev_budget = tier.pick(3, 3);
         plans.push(Plan { label: format!("{np}p"), cfg, depth: tier.pick(9, 14), max_states: tier.pick(200_000, 4_000_000), secs: tier.pick(60.0, 2400.0) });
     }
+    // endurance: the frame count bit over 2000 (thorough 150 000) consecutive requests with rare losses, power
+    // cycles and user calls, retry limits 1 and 3
+    [1u8, 3].par_iter().for_each(|retry| {
+        let mut cfg = base_cfg(vec![PeriphCfg::simple(9, 2, 1)], Mon::C08, vec![Act::Answer]);
+        cfg.rig.max_retry = *retry;
+        let (steps, cycles) = endurance_run(&Arc::new(cfg), tier.pick(2_000, 150_000));
+        ctx().note(format!("endurance run with max_retry_limit {retry}: {steps} requests, {cycles} DP cycles"));
+        if steps >= tier.pick(2_000, 150_000) {
+            ctx().witness("c08_endurance_run");
+        }
+    });
     let t = explore(plans, tier.pick(400.0, 14400.0), &|w| {
         if w.acts.len() > 5 {
             ctx().witness("c08_deep_state");
@@ -661,7 +672,7 @@ pub fn run_c08(tier: Tier) -> ! {
         t,
         "BFS over the joint state space (real DpMaster, reference slaves, per-destination frame-count monitor as history variables); transitions as C03 plus user calls at every point; oracle on the function-code byte and full bytes of consecutive requests per destination and on Offline events",
         json!({"max_retry_limits": tier.pick(vec![1, 2], vec![1, 2, 3, 15]), "loss_run_worlds_retry_limits": "1..=15", "one_peripheral_depth": tier.pick("10", "30 / 16 / 14 / 12 for retry limit 1 / 2 / 3 / 15"), "multi_peripheral_depth": tier.pick(9, 14)}),
-        vec!["c08_deep_state", "c08_stateright_cross_check_agrees"],
+        vec!["c08_deep_state", "c08_stateright_cross_check_agrees", "c08_endurance_run"],
         0,
     )
 }
@@ -736,12 +747,22 @@ pub fn run_c14(tier: Tier) -> ! {
             plans.push(Plan { label: format!("{n}p locked by another master {locked:?}"), cfg, depth: tier.pick(10, 16), max_states: tier.pick(60_000, 1_000_000), secs: tier.pick(60.0, 2400.0) });
         }
     }
+    // endurance: 2000 (thorough 150 000) consecutive requests with rare losses, power cycles and user calls:
+    // more than 2^8 (thorough 2^16) DP cycles
+    [1usize, 2].par_iter().for_each(|n| {
+        let cfg = Arc::new(base_cfg(vec![PeriphCfg::simple(9, 2, 1), PeriphCfg::simple(11, 0, 2)][..*n].to_vec(), Mon::C14, vec![Act::Answer]));
+        let (steps, cycles) = endurance_run(&cfg, tier.pick(2_000, 150_000));
+        ctx().note(format!("endurance run with {n} peripheral(s): {steps} requests, {cycles} DP cycles"));
+        if cycles > tier.pick(600, 70_000) {
+            ctx().witness("c14_endurance_run");
+        }
+    });
     let t = explore(plans, tier.pick(400.0, 14400.0), &|_w| {});
     finish_mc(
         t,
         "BFS over (real DpMaster with 0..4 peripherals in a fixed 4-slot array or a growing Vec, reference slaves, cycle/turn monitor and per-peripheral life-cycle automaton as history variables); transitions = answered / lost / token lost / power cycle / RR, RS and parameter-fault replies / long token absence / user diagnostics requests; events taken after every callback",
         json!({"peripherals": format!("0..={max_n}"), "storage": ["Vec", "fixed[4]"], "global_control": ["once", "every visit"], "high_prio_only": [false, true]}),
-        vec!["c14_cycle_completed"],
+        vec!["c14_cycle_completed", "c14_endurance_run"],
         0,
     )
 }
